@@ -124,6 +124,13 @@ impl StateMachine<'_> {
                 // dropped (`diff --suppress-blank-empty`, mail tools): it is a line of the old file.
                 if self.line.is_empty() {
                     self.minus_line_counter.count_line();
+                } else if !self.line.starts_with('\\') {
+                    // Any other line is not part of the hunk (e.g. the first line of the next
+                    // commit in `git log --oneline -p`): the hunk ends here and the line is
+                    // treated like text outside a diff.
+                    self.painter.emit()?;
+                    self.state = State::Unknown;
+                    return Ok(false);
                 }
                 // Not the raw line: git terminates this line with a color reset sequence when
                 // it colors the diff, which must not make a difference to the output.
@@ -215,12 +222,16 @@ fn new_line_state(
             // The prefix of a combined diff line consists of ASCII characters; if the line
             // does not have one (the cut would fall inside a character) it is not a hunk line.
             let prefix = new_line.get(..min(n_parents, new_line.len()))?;
-            let prefix_char = match prefix.chars().find(|c| c == &'-' || c == &'+') {
-                Some(c) => Some(c),
-                None => match prefix.chars().find(|c| c != &' ') {
-                    None => Some(' '),
-                    Some(_) => None,
-                },
+            // (A prefix consists of '-', '+' and ' ' only: "C++ rocks" is not an added line.)
+            let prefix_char = if prefix.chars().any(|c| !matches!(c, '-' | '+' | ' ')) {
+                None
+            } else {
+                Some(
+                    prefix
+                        .chars()
+                        .find(|c| c == &'-' || c == &'+')
+                        .unwrap_or(' '),
+                )
             };
             (
                 prefix_char,
